@@ -42,11 +42,29 @@ def table_obligations(rep, prop='C01'):
                       'sqlparse.lexer.Lexer.set_SQL_REGEX', same, {'entries': len(comp)})
 
 
+def candidates(ob):
+    """counter-model text first, then small variations over the witness alphabet of the sidecar contract"""
+    import itertools
+    from contracts.lexer import get_tokens_str
+    t = common.model_value(ob, 'in_text')
+    alpha = list(get_tokens_str.witness_alphabet)
+    if isinstance(t, str):
+        yield t
+        for a in alpha:
+            yield t + a
+            yield a + t
+        alpha = sorted(set(t)) + alpha
+    for n in (1, 2, 3):
+        for tup in itertools.product(alpha, repeat=n):
+            yield ''.join(tup)
+
+
 def run(rep):
     common.verify_functions(rep, [(GET_TOKENS, 'text is str'), ('sqlparse.utils.consume', None),
                                   ('sqlparse.lexer.Lexer.is_keyword', 'full')])
     table_obligations(rep)
     common.run_bounded(rep, 'C01', rep.tier, rep.seed)
+    common.attach_replay(rep, 'C01', candidates)
     rep.assumptions += ['re.Pattern.match(text, pos) returns None or a match m with pos <= m.end() <= len(text), '
                         'm.group() == text[pos:m.end()], m.end()-pos >= minwidth(pattern); it raises nothing',
                         'itertools.islice / collections.deque(maxlen=0) advance the iterator by min(n, remaining)']
